@@ -422,6 +422,7 @@ def shrink(case, sig):
 def run_cases(ctx, cases, deadline=None):
     import time
     res = core.Result()
+    seen = {}
     for case in cases:
         if deadline and time.time() > deadline:
             res.count('decomp.stopped-at-budget')
@@ -440,10 +441,15 @@ def run_cases(ctx, cases, deadline=None):
         elif 'kept' in info:
             res.count(f'decomp.{case["part"]}.truncated=' + str(info['kept'] < info['full']))
         if sig:
-            small = shrink(case, sig)
-            sig2, det2, _ = CHECKS[case['part']](small)
-            small['original'] = dict(case)
-            res.fail('property', sig2 or sig, det2 or detail, small)
+            seen[sig] = seen.get(sig, 0) + 1
+            res.count('decomp.fail.' + sig)
+            if seen[sig] <= 2:
+                small = shrink(case, sig)
+                sig2, det2, _ = CHECKS[case['part']](small)
+                small['original'] = dict(case)
+                res.fail('property', sig2 or sig, det2 or detail, small)
+            elif seen[sig] <= 10:
+                res.fail('property', sig, detail, case)
     return res
 
 
@@ -489,18 +495,40 @@ def gen_cases(rng, n_svd, n_eigh, n_qr):
     return cases
 
 
+def _chunk(args):
+    prop, tier, seed, tag, sizes, deadline = args
+    core.use_repo()
+    ctx = core.Ctx(prop, tier, seed, 0)
+    return run_cases(ctx, gen_cases(ctx.sub_rng(tag), *sizes), deadline=deadline)
+
+
+def run_parallel(ctx, tag, n_chunks, sizes, deadline):
+    import multiprocessing as mp
+    res = core.Result()
+    jobs = [(ctx.prop, ctx.tier, ctx.seed, f'{tag}:{i}', sizes, deadline) for i in range(n_chunks)]
+    with mp.get_context('fork').Pool(min(16, mp.cpu_count() or 1)) as pool:
+        for r in pool.imap(_chunk, jobs):
+            res.merge(r)
+    return res
+
+
 def run(ctx, budget_s):
     import time
-    rng = ctx.sub_rng('decomp')
+    deadline = time.time() + budget_s
+    res = run_cases(ctx, load_corpus(), deadline=deadline)
     if ctx.quick:
-        cases = gen_cases(rng, 250, 150, 200)
+        res.merge(run_cases(ctx, gen_cases(ctx.sub_rng('decomp'), 400, 250, 350), deadline=deadline))
     else:
-        cases = gen_cases(rng, 6000, 3000, 4000)
-    return run_cases(ctx, load_corpus() + cases, deadline=time.time() + budget_s)
+        res.merge(run_parallel(ctx, 'decomp', 32, (600, 300, 500), deadline))
+    return res
 
 
 def search(ctx, budget_s):
     import time
-    rng = ctx.sub_rng('decomp-search')
-    cases = gen_cases(rng, 400, 200, 400) if ctx.quick else gen_cases(rng, 6000, 3000, 6000)
-    return run_cases(ctx, load_corpus() + cases, deadline=time.time() + budget_s)
+    deadline = time.time() + budget_s
+    res = run_cases(ctx, load_corpus(), deadline=deadline)
+    if ctx.quick:
+        res.merge(run_cases(ctx, gen_cases(ctx.sub_rng('decomp-search'), 400, 200, 400), deadline=deadline))
+    else:
+        res.merge(run_parallel(ctx, 'decomp-search', 32, (400, 200, 400), deadline))
+    return res
